@@ -163,7 +163,11 @@ func hSource(n int) []byte {
 		tail := vfParam("tail")
 		src := make([]byte, 0, n)
 		for i := 0; i < l && len(src) < n-tail; i++ {
-			src = append(src, byte((i*37+11)%251))
+			// no 4-byte group occurs twice for l <= 700 (checked by enumeration); for i < 251 this is
+			// (i*37+11)%251, beyond it the step changes with i/251 so that the pattern does not
+			// come round again after 251 bytes (it did, which cut the runs of 255+ bytes short)
+			q, r := i/251, i%251
+			src = append(src, byte((r*37+11+q*(r+1))%251))
 		}
 		for i := 0; len(src) < n-tail; i++ {
 			src = append(src, src[i%l])
